@@ -9,6 +9,8 @@
 
 namespace sim {
 
+int max_watched();
+
 struct Plain {
   int v;
   explicit Plain(int v_ = 0) : v(v_) {}
@@ -81,7 +83,13 @@ class ExecImpl : public ClauseSink {
   std::vector<std::unique_ptr<trompeloeil::sequence>> rseqs;
   std::vector<std::unique_ptr<trompeloeil::sequence>> moved_from_seqs;   // sources of move assignments, not yet destroyed
   void bury_moved_from_seqs();
+  bool in_reporter_op = false;
   std::vector<trompeloeil::deathwatched<Plain>*> rwatched;
+  std::vector<trompeloeil::deathwatched<MockT<false>>*> rwatched_mock;   // same index; set when the watched object is a mock (it is owned through rmocks)
+  void watched_death_model(int wid, std::vector<XRep>& want);
+  bool mock_death_model(int id, std::vector<XRep>& want);
+  void destroy_watched_mock(int mock_id);
+  std::vector<int> live_plain_watched() const { std::vector<int> r; for (auto& w : M.watched) if (w.alive && w.mock < 0) r.push_back(w.id); return r; }
   std::vector<EP> rmons;
   struct RTracer { int id; int kind; std::unique_ptr<RecTracer> rec; std::unique_ptr<StreamRec> str; };
   std::vector<RTracer> rtracers;
